@@ -35,6 +35,10 @@ def bdays_from(d0, n):
 def gen_case(rng):
     n = rng.choice([2, 3, 5, 10, 22, 30, 64, 130, 260, 300, 520, 800]) if rng.random() < 0.85 else rng.randint(2, 800)
     d0 = rng.randrange(10957, 19000)      # 2000 .. 2022
+    if rng.random() < 0.04:
+        # decades of daily observations (every reported series has one entry per observation, however many there are)
+        n = rng.choice([5001, 5200, 6500, 10400])
+        d0 = rng.randrange(3653, 9000)    # from the 1980s / 1990s on
     if rng.random() < 0.3:
         y = rng.randrange(2000, 2022)
         d0 = (dtm.date(y, 12, rng.randint(20, 31)) - EPOCH).days      # year crossing early
